@@ -7,6 +7,8 @@ use std::sync::Arc;
 
 pub mod c01;
 pub mod c04;
+#[cfg(not(feature = "lite"))]
+pub mod c05;
 pub mod c11;
 pub mod c13;
 #[cfg(feature = "allfeat")]
@@ -16,7 +18,10 @@ pub mod c19;
 pub mod conf;
 pub mod dump;
 pub mod hist;
+pub mod purity;
 pub mod spec;
+#[cfg(not(feature = "lite"))]
+pub mod sweeps;
 
 pub struct Ctx {
     pub tier: Tier,
@@ -104,6 +109,17 @@ pub fn replay(property: &str, case: &serde_json::Value) -> Result<(), String> {
     if case["kind"].as_str() == Some("special") {
         return spec::replay(case);
     }
+    #[cfg(not(feature = "lite"))]
+    if case["kind"].as_str() == Some("domain-sweep") {
+        return sweeps::replay(case);
+    }
+    #[cfg(not(feature = "lite"))]
+    if case["kind"].as_str() == Some("des-extra") {
+        return c05::replay(case);
+    }
+    if case["kind"].as_str() == Some("purity") {
+        return purity::replay(case);
+    }
     if case["kind"].as_str() == Some("history") {
         return hist::replay(case);
     }
@@ -138,11 +154,18 @@ pub fn run(property: &str, ctx: &Ctx, rep: &mut Report) -> Result<(), String> {
         "C13" => c13::run(ctx, rep),
         #[cfg(feature = "allfeat")]
         "C14" => c14::run(ctx, rep),
-        "C15" => hist::run("C15", ctx, rep),
+        "C15" => {
+            purity::run(ctx, rep); // first, while the process is still single-threaded
+            hist::run("C15", ctx, rep);
+        }
         "C16" => c16::run(ctx, rep),
         "C19" => c19::run(ctx, rep),
         "C02" => conf::run_conf("C02", &["aes"], ctx, rep),
-        "C05" => conf::run_conf("C05", &["des"], ctx, rep),
+        "C05" => {
+            conf::run_conf("C05", &["des"], ctx, rep);
+            #[cfg(not(feature = "lite"))]
+            c05::run(ctx, rep);
+        }
         "C06" => conf::run_conf("C06", &["aria", "camellia", "sm4"], ctx, rep),
         "C07" => {
             conf::run_conf("C07", &["kuznyechik", "magma", "belt-block"], ctx, rep);
@@ -156,12 +179,16 @@ pub fn run(property: &str, ctx: &Ctx, rep: &mut Report) -> Result<(), String> {
             if ctx.wants_k("rc2", "Rc2::new_with_eff_key_len") && cfg!(not(feature = "lite")) {
                 spec::run_special("C09", crate::special::rc2_grid(ctx.tier), rep);
             }
+            #[cfg(not(feature = "lite"))]
+            sweeps::run_c09(ctx, rep);
         }
         "C10" => {
             conf::run_conf("C10", &["rc5", "speck-cipher", "threefish", "gift-cipher"], ctx, rep);
             if ctx.wants_k("threefish", "Threefish::new_with_tweak") && cfg!(not(feature = "lite")) {
                 spec::run_special("C10", crate::special::threefish_cases(ctx.tier), rep);
             }
+            #[cfg(not(feature = "lite"))]
+            sweeps::run_c10(ctx, rep);
         }
         "C17" => {
             if cfg!(feature = "allfeat") {
